@@ -127,10 +127,17 @@ package stack
 //@   modifies Call.*, Func.*
 //@   ensures result1 != nil ==> result0
 
+// The package part of a symbol ends at the first dot after the last slash (or
+// at the first dot when there is no slash); -2 stands for "slash but no dot".
+//@ spec pkgDot(raw string) int = lastIndexByte(raw, 47) != -1 ? (indexByte(raw[lastIndexByte(raw, 47)+1:], 46) == -1 ? -2 : lastIndexByte(raw, 47) + indexByte(raw[lastIndexByte(raw, 47)+1:], 46) + 1) : indexByte(raw, 46)
+
 //@ func (*Func).Init
-//@   option assumed
 //@   requires f != nil
 //@   modifies Func.* at f
+//@   ensures [initRejectsSlashWithoutDot C01] pkgDot(raw) == -2 ==> result != nil
+//@   ensures [initSplitsAtPackageDot C01] result == nil && pkgDot(raw) >= 0 ==> f.ImportPath == unescape(raw[:pkgDot(raw)]) && f.Complete == unescape(raw[:pkgDot(raw)]) + unescape(raw[pkgDot(raw):])
+//@   ensures [initNoDot C01] result == nil && pkgDot(raw) == -1 ==> f.ImportPath == old(f.ImportPath) && f.Complete == unescape(raw)
+//@   ensures [initMainFlag C01] result == nil ==> (f.IsPkgMain <==> f.ImportPath == "main") || old(f.IsPkgMain)
 
 //@ func (*Call).init
 //@   option assumed
